@@ -965,8 +965,30 @@ def render(tabs):
     c = tabs["operator_consts"]
     out.append("Definition operator_ANY : N := %d%%N.\nDefinition operator_NONZERO : N := %d%%N.\n\n" % (c.get("ANY", 0), c.get("NONZERO", 0)))
     out.append("Definition op_classes : list opclass := [\n  %s\n].\n\n" % ";\n  ".join(g_class(x) for x in tabs["op_classes"]))
-    for k in ("op_methods", "node_funcs", "tensor_funcs", "device_funcs", "tensor_methods", "template_specs", "arith_ops"):
-        out.append(g_funcs(k, tabs[k]) + "\n")
+    for k in ("op_methods", "node_funcs", "tensor_funcs", "device_funcs", "tensor_methods", "template_specs", "arith_ops",
+              "op_methods_cache_delta"):
+        out.append(g_funcs(k, tabs.get(k, [])) + "\n")
+    return "".join(out)
+
+
+SPECIAL = ("Split", "BatchSplit", "SoftmaxCrossEntropy", "SparseSoftmaxCrossEntropy")
+SPECIAL_T = (("functions", "split"), ("functions::batch", "split"), ("functions", "softmax_cross_entropy"),
+             ("functions", "log_softmax"))
+
+
+def render_reviewed(tabs):
+    """coq/Tables/Reviewed.v: the bodies of the four operators whose Tensor function is a
+    composite, as they were when a person last compared them (NOT regenerated by the check)."""
+    ms = [f for f in tabs["op_methods"] if f["qual"] in SPECIAL and f["name"] in ("forward", "forward_shape")]
+    ts = [f for f in tabs["tensor_funcs"] if (f["ns"], f["name"]) in SPECIAL_T]
+    out = ["(* REVIEWED COPY (written once by `translate/gen_optables.py --emit-reviewed`, then read and\n"
+           "   compared with the C++ by a person; NOT regenerated by ./check).  The obligation\n"
+           "   special_rows_match_reviewed of Tables/OpCheck.v compares the regenerated bodies with these. *)\n"
+           "From Coq Require Import List String.\nFrom PV Require Import Tables.OpSyntax.\nImport ListNotations.\n"
+           "Local Open Scope string_scope.\n\n"]
+    out.append(g_funcs("rv_methods", ms) + "\n")
+    out.append(g_funcs("rv_tensor_funcs", ts) + "\n")
+    out.append(g_funcs("rv_cache_delta", tabs.get("op_methods_cache_delta", [])) + "\n")
     return "".join(out)
 
 
@@ -982,7 +1004,7 @@ def write_if_changed(path, content):
     return True
 
 
-EMPTY = {"op_classes": [], "op_methods": [], "node_funcs": [], "tensor_funcs": [], "device_funcs": [],
+EMPTY = {"op_methods_cache_delta": [], "op_classes": [], "op_methods": [], "node_funcs": [], "tensor_funcs": [], "device_funcs": [],
          "tensor_methods": [], "template_specs": [], "arith_ops": [], "operator_consts": {}}
 
 
@@ -993,6 +1015,15 @@ def main(cache=False, write_v=True):
     err = None
     try:
         tabs = read_all(cache)
+        if not cache:
+            # methods whose body differs under -DPRIMITIV_USE_CACHE (a second preprocessor run)
+            ctabs = read_all(True)
+            plain = {(f["qual"], f["name"]): f for f in tabs["op_methods"]}
+            tabs["op_methods_cache_delta"] = [f for f in ctabs["op_methods"] if plain.get((f["qual"], f["name"])) != f]
+            other = [k for k in tabs if k not in ("op_methods", "op_methods_cache_delta") and tabs[k] != ctabs.get(k)]
+            if other:   # any other table changing under the cache flag is reported as an unparsed method
+                tabs["op_methods_cache_delta"].append({"ns": "", "qual": "", "name": "<tables differ: %s>" % ",".join(other),
+                                                        "ret": "", "params": [], "inits": [], "body": [["SOther", "cache"]]})
     except Untranslatable as e:
         err = str(e)
         tabs = dict(EMPTY)
@@ -1010,6 +1041,12 @@ def main(cache=False, write_v=True):
 
 
 if __name__ == "__main__":
+    if "--emit-reviewed" in sys.argv:
+        main(write_v=False)
+        t = json.load(open(out_json(False)))
+        open(os.path.join(ROOT, "coq", "Tables", "Reviewed.v"), "w").write(render_reviewed(t))
+        print("wrote coq/Tables/Reviewed.v -- REVIEW IT against the C++ before committing")
+        sys.exit(0)
     try:
         print(main(cache="--cache" in sys.argv, write_v="--no-v" not in sys.argv))
     except Untranslatable as e:
